@@ -38,12 +38,19 @@ class FakeStream:
     def __init__(self):
         self.written = []
         self.closed = False
+        self.discarded = False
 
     def write(self, b):
         self.written.append(bytes(b))
 
     def close(self):
         self.closed = True
+
+    def abort(self):
+        # asyncio: abort() closes immediately and discards whatever is still buffered -- a frame written just before is
+        # not guaranteed to reach the peer
+        self.closed = True
+        self.discarded = True
 
     def get_extra_info(self, k, default=None):
         return {"sockname": ("::1", 5683, 0, 0), "peername": ("::2", 4000, 0, 0)}.get(k, default)
@@ -329,7 +336,7 @@ def mk_rules(case):
 
     def aborted(t, n0):
         new = t.written[n0:]
-        return t.closed and any(tcp._decode_message(w).code == ABORT for w in new)
+        return t.closed and not t.discarded and any(tcp._decode_message(w).code == ABORT for w in new)
 
     def h(csm_first: bool, x: int, tok: bytes, optnum: int, sigcode: int) -> None:
         assert 0 <= x < 2 ** 32 and len(tok) == 2 and 0 <= optnum < 64 and 0 <= sigcode <= 4
@@ -430,7 +437,7 @@ def mk_client_rules(reach):
     tmod.random = R()
     CSMB = tcp._serialize(Message(code=CSM))
 
-    def h(ev: int, nreq: int, empty_first: bool) -> None:
+    def h(ev: int, nreq: int, empty_first: bool, in_pool: bool) -> None:
         assert 0 <= ev <= 3 and 1 <= nreq <= 2
         e = pick([0, 1, 2, 3], ev)
         with SimLoop() as loop:
@@ -443,7 +450,12 @@ def mk_client_rules(reach):
             tman.token_interface = client
             ctx.request_interfaces.append(tman)
             conn = tcp.TcpConnection(client, LOG, loop, is_server=False)
-            client._pool[("h", 5683)] = conn
+            if in_pool:
+                client._pool[("h", 5683)] = conn
+            else:
+                # a connection that carries requests but was superseded in the pool (two concurrent first requests to one host)
+                other = tcp.TcpConnection(client, LOG, loop, is_server=False)
+                client._pool[("h", 5683)] = other
             t = FakeStream()
             conn.connection_made(t)
             conn.data_received(CSMB)
@@ -531,5 +543,6 @@ def obligations(tier):
     obs.append(Obligation("client-release-abort", mk_client_rules, 280 if q else 900,
                           functions=FC + ["tcp._TCPPooling._dispatch_incoming/_dispatch_error/send_message", "TokenManager.request/dispatch_error/process_response",
                                           "Context.request"],
-                          symbolic={"event": "Release / Abort / connection lost / response then Release", "pending requests": "1..2", "empty message first": "bool"}))
+                          symbolic={"event": "Release / Abort / connection lost / response then Release", "pending requests": "1..2", "empty message first": "bool",
+                                    "connection still in the client's pool": "bool"}))
     return obs
